@@ -13,9 +13,14 @@ PROPS = ["C%02d" % i for i in range(1, 21)]
 
 
 def run_check(prop, repo, tier="quick"):
-    env = dict(os.environ, OPENSKILL_REPO=repo, VERIF_EVIDENCE_DIR=tempfile.mkdtemp(prefix="ev-"))
+    evd = tempfile.mkdtemp(prefix="ev-")
+    env = dict(os.environ, OPENSKILL_REPO=repo, VERIF_EVIDENCE_DIR=evd)
     t = time.time()
-    p = subprocess.run([os.path.join(VERIF, "check"), prop, "--tier", tier, "--no-lean"], stdout=subprocess.PIPE, stderr=subprocess.STDOUT, env=env)
+    try:
+        p = subprocess.run([os.path.join(VERIF, "check"), prop, "--tier", tier, "--no-lean"], stdout=subprocess.PIPE, stderr=subprocess.STDOUT, env=env)
+    finally:
+        import shutil
+        shutil.rmtree(evd, ignore_errors=True)
     out = p.stdout.decode()
     viol = [l for l in out.split("\n") if l.startswith("VIOLATION")]
     fail = [l for l in out.split("\n") if l.startswith("  failing:")]
